@@ -324,6 +324,9 @@ func matchRunTable(st *matchState, t matchTable) {
 					for k, v := range c.Params {
 						b.seenParams[k] = v
 					}
+					if c.Params != nil { // the map is the request's own: what the handler adds to it is gone with the request
+						c.Params["added-by-handler"] = "1"
+					}
 				}))
 			}()
 		}
